@@ -54,6 +54,9 @@ func genSign(r *c.Rng) *Case {
 	k.CA = c.Pick(r, []string{"both", "both", "both", "both", "both", "bothnodb", "bothnodb", "bothnodb", "bothnodb", "none", "user", "user", "host", "host"})
 	k.Prov = c.Pick(r, []string{"jwk", "jwk", "jwk", "x5c", "x5c", "oidc"})
 	k.Sub = c.Pick(r, subPool)
+	if r.Chance(1, 60) {
+		k.Sub = ""
+	}
 	k.Key = c.Pick(r, keyPool)
 	if r.Chance(2, 3) {
 		k.Key = c.Pick(r, keyPool[:7])
@@ -218,6 +221,9 @@ func corner() []*Case {
 		sg("host", "jwk", Opts{CertType: "user"}, Opts{}),
 		sg("host", "x5c", Opts{CertType: "host", Principals: []string{"h"}}, Opts{CertType: "host"}),
 		{Op: "sign", CA: "both", Prov: "jwk", Sub: "alice", NoSSH: true, Key: "ed"},
+		{Op: "sign", CA: "both", Prov: "jwk", Sub: "", Tok: Opts{CertType: "user", Principals: []string{"root"}, KeyID: "k"}, Key: "ed"},
+		{Op: "sign", CA: "both", Prov: "x5c", Sub: "", Tok: Opts{CertType: "host"}, Key: "ed"},
+		{Op: "sign", CA: "both", Prov: "oidc", Sub: "", Email: "alice@example.com", Key: "ed"},
 		{Op: "sign", CA: "both", Prov: "jwk", Sub: "alice", Key: "rsa1024"},
 		{Op: "sign", CA: "both", Prov: "jwk", Sub: "alice", Key: "dsa"},
 		{Op: "sign", CA: "both", Prov: "oidc", Sub: "123", Email: "alice@example.com", Key: "ed"},
